@@ -523,9 +523,41 @@ func c11Case(t *rapid.T, rec *vh.Recorder) {
 	if err != nil {
 		t.Fatalf("build base: %v", err)
 	}
+	tailFocus := false
+	if n >= 300 && rapid.IntRange(0, 2).Draw(t, "cutAtLeafBoundary") == 0 {
+		// Chunk boundaries are content-defined, so the prefix of the sequence that ends at the
+		// last key of some leaf is a map whose last key is itself a natural boundary. Rebuild
+		// the base as such a prefix (and aim the edits at its tail).
+		var ends []int
+		total := 0
+		if err := base.WalkNodes(ctx, func(_ context.Context, nd *tree.Node) error {
+			if nd.IsLeaf() {
+				total += nd.Count()
+				ends = append(ends, total)
+			}
+			return nil
+		}); err != nil {
+			t.Fatalf("walk base: %v", err)
+		}
+		if len(ends) >= 3 {
+			n = ends[rapid.IntRange(1, len(ends)-2).Draw(t, "boundaryLeaf")]
+			base, model, err = c11BuildBase(ctx, s.ns, s.ks, s.vs, n, step)
+			if err != nil {
+				t.Fatalf("build base: %v", err)
+			}
+			tailFocus = true
+			s.classes["last_key_is_leaf_boundary"] = true
+		}
+	}
 	s.model, s.saved = model, model.Clone()
 	s.fullHi = n*step + 30
 	c := rapid.IntRange(0, s.fullHi).Draw(t, "hotCenter")
+	if tailFocus || rapid.IntRange(0, 3).Draw(t, "hotAtTail") == 0 {
+		c = n*step - 6 // edits land in the last leaf and just past the last key
+		if c < 0 {
+			c = 0
+		}
+	}
 	s.lo, s.hi = c-12, c+12
 	if s.lo < 0 {
 		s.lo = 0
@@ -585,6 +617,32 @@ func c11Case(t *rapid.T, rec *vh.Recorder) {
 			if s.maxPend > 0 && cnt > s.maxPend+1 {
 				s.flushed = true
 			}
+		},
+		"tailBatch": func(t *rapid.T) {
+			// one batch that edits a key inside the last leaf (not the last key) and appends a
+			// key past the end, then materializes: the shape in which the flush chunker has to
+			// resynchronize with the old tree exactly at its last leaf
+			if s.model.Len() < 4 {
+				t.Skip("map too small")
+			}
+			back := rapid.IntRange(1, 3).Draw(t, "back")
+			k1 := s.model.E[s.model.Len()-1-back].K
+			v1 := vt.GenRow(t, "v1", s.vs, 0, 5)
+			last := s.model.E[s.model.Len()-1].K
+			k2 := vt.SeqRow(s.ks, s.fullHi+rapid.IntRange(1, 40).Draw(t, "past"), 1)
+			if vt.CompareRows(k2, last) <= 0 {
+				t.Skip("cannot append past an extreme key")
+			}
+			v2 := vt.GenRow(t, "v2", s.vs, 0, 5)
+			for _, kv := range [][2]vt.Row{{k1, v1}, {k2, v2}} {
+				if err := s.mut.Put(ctx, s.ks.Tuple(kv[0]), s.vs.Tuple(kv[1])); err != nil {
+					t.Fatalf("Put: %v", err)
+				}
+				s.model.Put(kv[0], kv[1])
+			}
+			pend += 2
+			s.sinceCp += 2
+			s.op("tailBatch edit %v=%v append %v=%v", k1, v1, k2, v2)
 		},
 		"delete": func(t *rapid.T) {
 			k := s.genKey(t, "k")
@@ -724,5 +782,5 @@ func TestVerif_C11(t *testing.T) {
 			}
 		}
 	})
-	vh.Check(t, "model", 250, 1200, func(rt *rapid.T) { c11Case(rt, rec) })
+	vh.Check(t, "model", 1200, 2500, func(rt *rapid.T) { c11Case(rt, rec) })
 }
